@@ -57,6 +57,15 @@ class _float(float):
     def __hash__(self):
         return super().__hash__() + 1
 
+    # The shifted hash can still coincide with the hash of the equal int (CPython
+    # never returns -1 as a hash, so -1.0 and -2.0 end up with the hashes of -1 and
+    # -2): a wrapped float is therefore only ever equal to another wrapped float.
+    def __eq__(self, other):
+        return type(other) is _float and float.__eq__(self, other)
+
+    def __ne__(self, other):
+        return not self.__eq__(other)
+
 
 class _TypedSetDefaultDict(dict):
     """Dictionary that is guaranteed to store differently typed values separately.
